@@ -121,7 +121,8 @@ def insSort {α : Type} (le : α → α → Bool) : List α → List α
     every element takes part in at least one comparison with another one and the comparisons
     made connect all elements (a sorting algorithm cannot otherwise know the order), so some `<`
     is evaluated across two classes, or on a `None`/list/dict, exactly when the ids are not all
-    in one class: `TypeError`.  Inside a class the sort is stable (`insSort`; the order among
+    in one class: `TypeError` (`SortExplicit.lean` proves this function equal, error cases
+    included, to an insertion sort that evaluates `pyLt` for every comparison).  Inside a class the sort is stable (`insSort`; the order among
     equal keys is never observable: a tuple with equal ids matches no key). -/
 def pySorted {α : Type} (ps : List (Id × α)) : Except PyExc (List (Id × α)) :=
   match ps with
